@@ -30,6 +30,7 @@ type Env struct {
 	callee      bool
 	calleeGhost map[string]Value
 	pos         token.Pos
+	spos        token.Pos // position whose lexical scope resolves names (call site of an event, return statement)
 	lemma       bool
 	callPre     *State // state just before the call of the event being handled
 }
@@ -205,6 +206,13 @@ func (e *Env) evalBinary(n *ast.BinaryExpr) Value {
 		return scalar(bt, eq)
 	case token.LSS, token.LEQ, token.GTR, token.GEQ:
 		op := map[token.Token]string{token.LSS: "<", token.LEQ: "<=", token.GTR: ">", token.GEQ: ">="}[n.Op]
+		if l.T != nil && isString(l.T) && l.T != untypedInt && r.T != nil && isString(r.T) {
+			c, facts := e.x.strCmp(l.one(), r.one())
+			if e.x.specFacts != nil {
+				*e.x.specFacts = append(*e.x.specFacts, facts...)
+			}
+			return scalar(bt, mkCmp(op, c, tZero))
+		}
 		return scalar(bt, mkCmp(op, l.one(), r.one()))
 	case token.ADD, token.SUB, token.MUL:
 		if n.Op == token.ADD && isString(l.T) && l.T != untypedInt {
@@ -294,6 +302,12 @@ func (e *Env) evalIdent(name string) Value {
 		}
 	}
 	if !e.callee && !e.lemma {
+		if e.x.freeVars[name] {
+			// a variable captured by reference: the closure holds its address
+			if v, ok := e.x.params[name]; ok && isPointer(v.T) {
+				return e.x.loadNoFacts(e.st, e.x.deref(v))
+			}
+		}
 		if e.atReturn || e.atEntry {
 			if v, ok := e.x.params[name]; ok {
 				return v
@@ -343,6 +357,22 @@ func (e *Env) lookupLocal(name string) (Value, bool) {
 			}
 		}
 	}
+	// lexical scoping: the variable the name denotes at the place the clause talks about
+	if pos := e.scopePos(); pos.IsValid() && x.fn != nil && x.fn.Pkg != nil && len(x.allocsByName[name]) > 1 {
+		if sc := x.fn.Pkg.Pkg.Scope().Innermost(pos); sc != nil {
+			if _, obj := sc.LookupParent(name, pos); obj != nil {
+				if v, ok := obj.(*types.Var); ok {
+					for _, a := range x.allocsByName[name] {
+						if a.Pos() == v.Pos() {
+							if pv, ok := e.st.regs[a]; ok {
+								return x.loadNoFacts(e.st, x.deref(pv)), true
+							}
+						}
+					}
+				}
+			}
+		}
+	}
 	var best *ssa.Alloc
 	for _, a := range x.allocsByName[name] {
 		if _, ok := e.st.regs[a]; !ok {
@@ -366,6 +396,22 @@ func (e *Env) lookupLocal(name string) (Value, bool) {
 	}
 	pv := e.st.regs[best]
 	return x.loadNoFacts(e.st, x.deref(pv)), true
+}
+
+// scopePos is the source position whose lexical scope decides what a name means in this clause.
+func (e *Env) scopePos() token.Pos {
+	if e.spos.IsValid() {
+		return e.spos
+	}
+	if e.loop != nil && e.loop.AST != nil {
+		switch s := e.loop.AST.(type) {
+		case *ast.ForStmt:
+			return s.Body.Lbrace + 1
+		case *ast.RangeStmt:
+			return s.Body.Lbrace + 1
+		}
+	}
+	return token.NoPos
 }
 
 func (e *Env) declaredInLoopHeader(a *ssa.Alloc) bool {
